@@ -1,6 +1,7 @@
 // C06: write() then read() restores the complete observable state of a grid (binary format; ASCII runs as an un-counted concrete sanity pass).
 // args: <grid spec> <history> <binary 1/0>
 //  history: 0 fresh | 1 loaded | 2 loaded + pending refinement | 3 active construction (loaded + parked samples) | 4 empty grid | 5 loaded + conformal map | 6 merged refinement + coefficient overwrite
+//           8 loaded + pending updateGrid(depth+1) (the numbers of active tensors before and after differ)
 //           9 solver-chosen: three steps, each one of {nothing, load / overwrite, pending refinement, merge, update, begin construction + two samples, finish construction}
 //           7 active construction with samples delivered deepest-first (tensors completed before their lower neighbours: complete-but-blocked data)
 #include "tgrid.hpp"
@@ -25,6 +26,7 @@ int main(int argc, char **argv){
   if (history != 4) makeGrid(grid, g);
   bool local = grid.isLocalPolynomial() || grid.isWavelet();
   bool nested = history != 4 && !OneDimensionalMeta::isNonNested(grid.getRule());
+  if (history == 8 && !local && outs > 0){ grid.loadNeededValues(model.values(grid.getNeededPoints(), d)); grid.updateGrid(g.depth + 1, IO::getDepthTypeString(g.type), g.aw, g.ll); }
   if (history == 1 || history == 2 || history == 5 || history == 6) grid.loadNeededValues(model.values(grid.getNeededPoints(), d));
   if ((history == 2 || history == 6) && nested){ if (local) grid.setSurplusRefinement(0.0, refine_classic, -1, g.ll); else grid.setAnisotropicRefinement(type_iptotal, 2, 0, g.ll); }
   if (history == 6 && nested){ grid.mergeRefinement(); int nc = (grid.isFourier() ? 2 : 1) * grid.getNumLoaded() * outs; std::vector<double> h(nc); for (int i=0;i<nc;i++) h[i] = model.symbolic ? fpsym_symbolic(0.2 - 0.05 * (i % 7), 6000 + i, -1.0, 1.0) : 0.2 - 0.05 * (i % 7); grid.setHierarchicalCoefficients(h); }
